@@ -493,6 +493,23 @@ def method(E, st, recv: V, name, args, kw, n):
             yield st, E.alloc_list(st, cur)
             return
         raise Unsupported("list.%s (line %d)" % (name, line))
+    if recv.ty.kind == "dictv" and name == "get":
+        kt, vt = recv.ty.args
+        dom, val = recv.items
+        key = coerce(args[0], kt)
+        d = coerce(args[1], vt) if len(args) > 1 else None
+        if d is None:
+            raise Unsupported("dict-literal.get without default")
+        lit = getattr(recv, "_lit", None)
+        if lit is not None:
+            # a literal table: the lookup as a chain of comparisons (same meaning as the array form, easier on the solvers)
+            t = d.t
+            for kx, vx in lit:
+                t = z3.If(key.t == z3.StringVal(kx), z3.StringVal(vx), t)
+            yield st, V(vt, t)
+            return
+        yield st, V(vt, z3.If(z3.Select(dom, key.t), z3.Select(val, key.t), d.t))
+        return
     if is_dictlike(recv.ty):
         kt, vt = dict_tys(recv.ty)
         dom, val = st.dict_get(recv)
